@@ -11,6 +11,7 @@ that step's rows.
 
 from __future__ import annotations
 
+import json
 import sqlite3
 import struct
 from datetime import datetime, timedelta
@@ -64,7 +65,8 @@ def gen_case(rng):
         events.append({"kind": "target_removal", "k": rng.randrange(1, total + 1), "shift": 0})
     if estimation and rng.random() < 0.4:
         events.append({"kind": "impulse", "k": rng.randrange(1, total + 1), "shift": 0})
-    return {"kind": "audit", "net": net, "out": out, "plan": plan, "span_steps": span_steps, "estimation": estimation, "events": events}
+    second_engine = rng.random() < 0.3  # a second tasking engine that shares the first target (one estimate agent serves both)
+    return {"kind": "audit", "second_engine": second_engine, "net": net, "out": out, "plan": plan, "span_steps": span_steps, "estimation": estimation, "events": events}
 
 
 def build_cfg(case):
@@ -87,6 +89,16 @@ def build_cfg(case):
                         "thrust_vector": [0.0, 0.02, 0.0], "thrust_frame": "ntw", "planned": False})
     cfg = netkit.net_cfg(net, truth_only=not case["estimation"], output_step=case["out"], events=evs)
     cfg["time"]["stop_timestamp"] = sk.iso(start + timedelta(seconds=case["span_steps"] * net["step"]))
+    if case.get("second_engine"):
+        e1 = cfg["engines"][0]
+        e2 = json.loads(json.dumps(e1))
+        e2["unique_id"] = 2
+        e2["targets"] = [e1["targets"][0]]
+        s2 = json.loads(json.dumps(e1["sensors"][0]))
+        s2["id"], s2["name"] = 21999, "S21999"
+        s2["state"]["latitude"] = float(s2["state"]["latitude"]) + 1.5
+        e2["sensors"] = [s2]
+        cfg["engines"].append(e2)
     return cfg
 
 
